@@ -49,24 +49,24 @@ class Ctx:
         self.BE = {n: z3.Function("be%d" % n, Int, S) for n in (4, 8)}
         self.BEinv = {n: z3.Function("be%d_inv" % n, S, Int) for n in (4, 8)}
         self.ENC = {}
-        self.FIX = z3.Function("u8f24_from_f64", z3.Float64(), Int)
+        self.FIX = z3.Function("u8f24_from_f64", Int, Int)
         self.axioms = []
 
     # -- uninterpreted encoders with their contracts ------------------------------------------------
     def sha(self, st, x):
         t = self.SHA(x)
-        st.assume(z3.And(self.SHAinv(t) == x, z3.Length(t) == 32))
+        self.axioms.append(z3.And(self.SHAinv(t) == x, z3.Length(t) == 32))
         return t
 
     def hexenc(self, st, x):
         t = self.HEX(x)
-        st.assume(z3.And(self.HEXinv(t) == x, z3.Length(t) == 2 * z3.Length(x)))
+        self.axioms.append(z3.And(self.HEXinv(t) == x, z3.Length(t) == 2 * z3.Length(x)))
         return t
 
     def be(self, st, n, x):
-        x = x % (2 ** (8 * n))
+        x = z3.If(x < 0, x + 2 ** (8 * n), x)  # two's complement of the signed inputs (timestamps)
         t = self.BE[n](x)
-        st.assume(z3.And(self.BEinv[n](t) == x, z3.Length(t) == n))
+        self.axioms.append(z3.And(self.BEinv[n](t) == x, z3.Length(t) == n))
         return t
 
     def enc(self, st, kind, k, minlen=1):
@@ -75,7 +75,7 @@ class Ctx:
             self.ENC[kind] = (z3.Function("encode_" + kind, z3.IntSort(), S), z3.Function("decode_" + kind, S, z3.IntSort()))
         e, d = self.ENC[kind]
         t = e(k)
-        st.assume(z3.And(d(t) == k, z3.Length(t) >= minlen))
+        self.axioms.append(z3.And(d(t) == k, z3.Length(t) >= minlen))
         return t
 
     def bytes_of(self, I, st, v):
@@ -83,22 +83,22 @@ class Ctx:
         if isinstance(v, Abs) and v.sort == "bytes":
             return v.term
         if isinstance(v, sstr.SymStr):
-            lit = sstr.literal_value(v) if hasattr(sstr, "literal_value") else None
-            if lit is not None:
-                return z3.StringVal(lit.decode())
+            atoms = getattr(v, "atoms", None)
+            if atoms is not None and all(a[0] == "lit" for a in atoms):
+                return z3.StringVal(b"".join(a[1] for a in atoms).decode())
         if isinstance(v, Agg) and v.kind in ("array", "vec") and all(z3.is_expr(x) and z3.is_int_value(z3.simplify(x)) for x in v.fields):
             return z3.StringVal("".join(chr(z3.simplify(x).as_long()) for x in v.fields))
         raise Unencodable("bytes of %r" % (v,))
 
     def models(self, I, st, caller, func, args, argtys, dest_ty):
         f = MM.strip_std_paths(func)
-        if re.match(r"^<(Sha256|CoreWrapper<.*>|D) as Digest>::new$", f):
+        if re.match(r"^<(Sha256|CoreWrapper<.*>|D) as (\w+::)*Digest>::new$", f):
             return MM.ret(st, Agg("hasher", None, ()))
-        if re.match(r"^<(Sha256|CoreWrapper<.*>|D) as (Digest|Update)>::update(::<.*>)?$", f):
+        if re.match(r"^<(Sha256|CoreWrapper<.*>|D) as (\w+::)*(Digest|Update)>::update(::<.*>)?$", f):
             h = MM.deref_all(I, st, args[0])
             I.store(st, args[0], Agg("hasher", None, tuple(h.fields) + (self.bytes_of(I, st, args[1]),)))
             return MM.ret(st, MI.UNIT)
-        if re.match(r"^<(Sha256|CoreWrapper<.*>|D) as (Digest|FixedOutput)>::(finalize|finalize_fixed)$", f):
+        if re.match(r"^<(Sha256|CoreWrapper<.*>|D) as (\w+::)*(Digest|FixedOutput)>::(finalize|finalize_fixed)$", f):
             h = MM.deref_all(I, st, args[0])
             parts = list(h.fields)
             pre = z3.Concat(*parts) if len(parts) > 1 else (parts[0] if parts else z3.StringVal(""))
@@ -115,7 +115,7 @@ class Ctx:
             return MM.ret(st, B(self.be(st, 4 if m.group(1) == "u32" else 8, args[0])))
         if re.search(r"Epoch::to_be_bytes$|BlockNumber::to_be_bytes$", f):
             return None
-        if re.search(r"DateTime::<Utc>::timestamp_nanos_opt$", f):
+        if re.search(r"DateTime::<(chrono::)?Utc>::timestamp_nanos_opt$", f):
             t = MM.deref_all(I, st, args[0])
             inr = z3.And(t.term >= -2 ** 63, t.term < 2 ** 63)
             return MM.ret(st, EnumV("Option", z3.If(inr, 1, 0), {1: (t.term,)}))
@@ -123,10 +123,10 @@ class Ctx:
             pp = MM.deref_all(I, st, args[0])
             names = [n for n, t in self.db.struct_fields("ProtocolParameters")]
             phi = pp.fields[names.index("phi_f")]
-            v = self.FIX(phi)
+            v = self.FIX(phi.term)
             st.assume(z3.And(v >= 0, v < 2 ** 32))
             return MM.ret(st, Abs("u8f24", v))
-        if re.search(r"FixedU32<.*>::to_be_bytes$", f):
+        if re.search(r"FixedU32::<.*>::to_be_bytes$|FixedU32<.*>::to_be_bytes$", f):
             return MM.ret(st, B(self.be(st, 4, MM.deref_all(I, st, args[0]).term)))
         m = re.search(r"ProtocolKey::<(.*)>::(to_json_hex|to_bytes_hex|to_bytes)$", f)
         if m:
@@ -143,3 +143,97 @@ ABSTRACT = {
     r"ProtocolKey<.*>|ProtocolAggregateVerificationKey.*|ProtocolMultiSignature|GenesisEd25519Signature|Ed25519Signature|ProtocolAncillary.*Data": "key",
     r"DateTime<Utc>": "time",
 }
+
+
+def leaf_paths(v, path=()):
+    """(path, kind) of every leaf of a symbolic certificate value; kind in bytes|int|fp|key|time|enum"""
+    if isinstance(v, Abs):
+        yield path, {"bytes": "bytes", "key": "key", "time": "time"}.get(v.sort, v.sort)
+    elif isinstance(v, Agg):
+        for i, f in enumerate(v.fields):
+            yield from leaf_paths(f, path + (i,))
+    elif isinstance(v, EnumV):
+        if z3.is_expr(v.discr):
+            yield path + ("discr",), "discr"
+        for k in sorted(v.payloads, key=str):
+            for i, f in enumerate(v.payloads[k]):
+                yield from leaf_paths(f, path + (("variant", k), i))
+    elif z3.is_expr(v):
+        yield path, ("fp" if z3.is_fp(v) else "bool" if z3.is_bool(v) else "int")
+
+
+def get_at(v, path):
+    for p in path:
+        if p == "discr":
+            return v.discr
+        if isinstance(p, tuple):
+            v = v.payloads[p[1]]
+        elif isinstance(v, tuple):
+            v = v[p]
+        else:
+            v = v.fields[p]
+    return v
+
+
+def set_at(v, path, new):
+    if not path:
+        return new
+    p = path[0]
+    if p == "discr":
+        return EnumV(v.name, new, v.payloads)
+    if isinstance(p, tuple):
+        pl = dict(v.payloads)
+        tup = list(pl[p[1]])
+        i = path[1]
+        tup[i] = set_at(tup[i], path[2:], new)
+        pl[p[1]] = tuple(tup)
+        return EnumV(v.name, v.discr, pl)
+    fs = list(v.fields)
+    fs[p] = set_at(fs[p], path[1:], new)
+    return Agg(v.kind, v.name, tuple(fs))
+
+
+def subst_value(v, pairs):
+    if isinstance(v, Abs):
+        return Abs(v.sort, z3.substitute(v.term, *pairs))
+    if isinstance(v, Agg):
+        return Agg(v.kind, v.name, tuple(subst_value(f, pairs) for f in v.fields))
+    if isinstance(v, EnumV):
+        d = z3.substitute(v.discr, *pairs) if z3.is_expr(v.discr) else v.discr
+        return EnumV(v.name, d, {k: tuple(subst_value(f, pairs) for f in pl) for k, pl in v.payloads.items()})
+    if z3.is_expr(v):
+        return z3.substitute(v, *pairs)
+    return v
+
+
+PM_KEYS_DEFAULT = ("SnapshotDigest", "NextAggregateVerificationKey", "NextProtocolParameters", "CurrentEpoch")
+
+
+def build_certificate(ctx, prefix, nsigners, pm_keys=PM_KEYS_DEFAULT):
+    """a fully symbolic Certificate; returns (value, builder) — builder.vars maps leaf names to solver variables"""
+    I = ctx.I
+    keytbl = I.load_enum("ProtocolMessagePartKey")
+
+    def string(p, sb):
+        v = z3.String(p)
+        sb.vars[p] = v
+        return B(v)
+
+    def time(p, sb):
+        v = z3.Int(p)
+        sb.vars[p] = v
+        sb.constraints.append(z3.And(v >= -CHRONO_NS, v <= CHRONO_NS))
+        return Abs("time", v)
+
+    def pmsg(p, sb):
+        ents = []
+        for kname in sorted(pm_keys, key=lambda k_: I.variant_index("ProtocolMessagePartKey", k_)):
+            v = z3.String("%s.part.%s" % (p, kname))
+            sb.vars["%s.part.%s" % (p, kname)] = v
+            ents.append(Agg("tuple", None, (EnumV("ProtocolMessagePartKey", I.variant_index("ProtocolMessagePartKey", kname), {}), B(v))))
+        fields = {"message_parts": Agg("btreemap", None, tuple(ents)), "hash_scheme": EnumV("ProtocolMessageHashScheme", 0, {})}
+        return Agg("adt", "ProtocolMessage", tuple(fields[n] for n, t in ctx.db.struct_fields("ProtocolMessage")))
+    abstract = {r"String": string, r"DateTime<Utc>": time, r"ProtocolMessage": pmsg, r"f64": "f64",
+                r"ProtocolKey<.*>|ProtocolAggregateVerificationKey.*|ProtocolMultiSignature|GenesisEd25519Signature|Ed25519Signature|ProtocolAncillary.*Data": "key"}
+    sb = symval.SymBuilder(ctx.db, I, abstract=abstract, vec_lengths=[(r".*\.signers", nsigners)])
+    return sb.make("Certificate", prefix), sb
